@@ -45,8 +45,8 @@ class FailSafe:
         self._cooldown_started_at = 0
         self._handle_on: Tuple[Type[BaseException], ...] = handle_on
 
-        self._max_errors_allowed: int = cooldown_time or _DEFAULT_MAX_ERROR_ALLOWED
-        self._cooldown_time: int = max_errors_allowed or _DEFAULT_FAILSAFE_COOLDOWN_SEC
+        self._max_errors_allowed: int = max_errors_allowed or _DEFAULT_MAX_ERROR_ALLOWED
+        self._cooldown_time: int = cooldown_time or _DEFAULT_FAILSAFE_COOLDOWN_SEC
 
     def __enter__(self) -> "FailSafe":
         return self
